@@ -5,6 +5,10 @@ ROOT = os.path.dirname(os.path.dirname(os.path.abspath(__file__)))
 
 # id -> (technique, level text, level note, design ref)
 CHECKS = {
+ "C01": ("explicit reference automaton (minimal DFA compiled from the RFC ABNF) + complete W-method conformance suite replayed against the compiled recogniser; cold/warm automaton-cache configurations compared",
+         "For each of the 20 validated types: every state and transition of the minimal reference DFA is covered and the complete Chow suite (S u S.B).Sigma^{<=m}.W (quick m=1 over the class alphabet, thorough m=1 over the boundary alphabet and m=2 over the class alphabet, plus every Unicode scalar out of every state) is replayed against the real constructor; language equality follows unless the compiled automaton has more than n+m states. All construction routes (borrowed/owned new, TryFrom, FromStr, from_vec, six serde visitor entry points, serde_json) are compared with the reference verdict on the m=0 suite, on all short byte strings and on ill-formed UTF-8 splices; identity of value/error payload with the input is observed on every trace. The cold configuration regenerates every automaton from the grammar sources in a scratch copy and compares with the committed cache (suite replayed against the cold build if they differ).",
+         "Trusted: /verif/spec transcription of the RFC grammars (cross-checked against a direct derivation matcher), the W-method theorem's state-bound premise, rustc/cargo. The implementation's automaton is not observable, hence black-box conformance.",
+         "DESIGN.md section 6, C01"),
  "C02": ("exhaustive input-space sweep (all token strings up to a length bound + structured compositions) against an RFC 3986 Appendix B splitting model",
          "Every string of up to 7 (quick) / 8 (thorough) tokens over the seven bytes the scanners branch on plus class representatives, filtered by the reference DFA, and a structured product scheme x authority x path x query x fragment (IPv6, multi-byte text at every boundary); each through accessors, parts(), borrowed, owned, reference and non-reference types; every returned component re-validated by the library and by the reference DFA; recomposition must reproduce the text. Exhaustive inside the bound.",
          "Trusted: the 60-line Appendix-B splitting model, the reference DFAs from /verif/spec. Data independence of the scanners w.r.t. bytes outside ': / ? # @ [ ]' is re-checked with decoy bytes in thorough, not proved.",
